@@ -57,13 +57,22 @@ def gen(rng, tier):
     for _ in range(n):
         sd, st = rng.choice(STARTS)
         src = dict(kind='arrays', nt=rng.randint(1, 5), nl=rng.randint(1, 4), nr=rng.randint(1, 4), nc=rng.randint(1, 4),
-                   nv=rng.randint(1, 2), sdate=sd, stime=st, tstep=rng.choice([10000, 3000, 240000, 20000, 1200000, 60000]),
+                   nv=rng.randint(1, 2), sdate=sd, stime=st,
+                   # steps with a seconds component too (7 min 30 s, 30 s, 1 h 20 s)
+                   tstep=rng.choice([10000, 3000, 240000, 20000, 1200000, 60000, 730, 30, 10020]),
                    lv=sorted(rng.sample(range(0, 65), 5), reverse=rng.random() < 0.7), withcf=False)  # sigma-like or height-like edges
         dl = dict(TSTEP=src['nt'], LAY=src['nl'], ROW=src['nr'], COL=src['nc'])
         ds = rng.sample(sorted(dl), rng.randint(1, 3))
         src['notflag'] = rng.random() < 0.2      # the time axis lives in SDATE / STIME / TSTEP only: no TFLAG variable yet
+        if not src['notflag'] and rng.random() < 0.3:
+            src['tflagfirst'] = True            # TFLAG is the first variable (the layout of IOAPI files on disk)
+            src['nv'] = 2
         out.append(dict(src=src, recipes=[], ops=[['slice', [[d, _win(rng, dl[d])] for d in ds]]],
                         redate=(rng.choice([7, 30, 366]) if (not src['notflag'] and rng.random() < 0.25) else 0)))
+        if not src['notflag'] and src['nv'] == 2 and rng.random() < 0.25:
+            # a variable was added in place since the flags were written (TFLAG still has the old VAR length); judged by the
+            # independent oracle, the model is not asked
+            out[-1]['precreate'] = True
     # the corners of the integer selectors, in every run: the last record counted from the end (the window [-1:0] is
     # empty, [-1:] is not), the first counted from the end, and numpy integers on both horizontal axes at once
     for j in range(12):
@@ -94,6 +103,13 @@ def impl(case):
                 tf[i, :, 0] = int(t.strftime('%Y%j'))
                 tf[i, :, 1] = int(t.strftime('%H%M%S'))
             f.SDATE, f.STIME = int(T2[0].strftime('%Y%j')), int(T2[0].strftime('%H%M%S'))
+        if case['src'].get('tflagfirst') and 'TFLAG' in f.variables and hasattr(f.variables, 'move_to_end'):
+            f.variables.move_to_end('TFLAG', last=False)
+        if case.get('precreate'):
+            nv_ = f.createVariable('NEWV', 'f', ('TSTEP', 'LAY', 'ROW', 'COL'))
+            nv_.units = 'ppm'.ljust(16)
+            nv_.long_name = 'NEWV'.ljust(16)
+            nv_.var_desc = 'NEWV'.ljust(80)
         res = dict(init=c10.obs(f), init_bad=c10.coherent(f), ops=list(case['ops']), states=[])
         T = f.getTimes()
         res['src_times'] = [int(t.strftime('%Y%j%H%M%S')) for t in T]
@@ -106,7 +122,14 @@ def impl(case):
         except Exception as e:
             res['states'].append(dict(err=type(e).__name__, msg=str(e)[:100]))
             return res
-        res['states'].append(dict(st=c10.obs(g), bad=c10.coherent(g)))
+        try:
+            res['states'].append(dict(st=c10.obs(g), bad=c10.coherent(g)))
+        except lib.HarnessError as e:
+            if 'TFLAG columns differ' not in str(e):
+                raise
+            # the time flags of the RESULT differ between variables: an observation about the result, not a limit of the check
+            res['states'].append(dict(st=None, bad=['the time flags of the window differ from variable to variable']))
+            return res
         res['out_times'] = [int(t.strftime('%Y%j%H%M%S')) for t in g.getTimes()]
         res['out_geo'] = [float(g.XORIG), float(g.YORIG), float(g.XCELL), float(g.YCELL)]
         res['out_vg'] = [float(x) for x in np.atleast_1d(g.VGLVLS)]
@@ -117,7 +140,12 @@ def impl(case):
 
 
 to_line = c10.to_line
-agree = c10.agree
+
+
+def agree(case, out, res):
+    if case.get('precreate') or (res['states'] and res['states'][0].get('st', 1) is None):
+        return None
+    return c10.agree(case, out, res)
 
 
 def _idx(n, w):
